@@ -78,8 +78,9 @@ let () =
     (match Dimacs.parse_unigen (file_of_sexp f) with
      | None -> "none"
      | Some ((cls, ss), nv) -> show_cnf cls ^ " " ^ show_zlist ss ^ " " ^ show_z nv) | _ -> "!args");
-  register "sampler_input" (function [f] ->
-    (match Dimacs.sampler_input (file_of_sexp f) with
+  (* (sampler_input b file): b = what the external satisfiability pre-check answers *)
+  register "sampler_input" (function [b; f] ->
+    (match Dimacs.sampler_input (fun _ -> bool_of_sexp b) (file_of_sexp f) with
      | None -> "none"
      | Some None -> "empty"
      | Some (Some (cls, ss)) -> show_cnf cls ^ " " ^ show_zlist ss) | _ -> "!args");
